@@ -143,6 +143,9 @@ func (e *Env) runC10Cases(op *Op) *Violation {
 		return nil
 	}
 	e.Res.Probes["c10:plan_files"] += len(plan)
+	if v := e.c10Integrity(base, uint64(op.Ms)+5, out, clean); v != nil {
+		return v
+	}
 	// learn which client calls of a restore are opens
 	_, _, probe := e.restoreFrom(e.RepDir, []Fault{}, out)
 	clean()
@@ -347,4 +350,98 @@ func init() {
 	register(&Prop{ID: "C10", Engine: "HIST", Gen: genC10, Run: runC10, Nontrivial: func(r *Result) bool {
 		return r.Probes["c10:errors"] > 0 && r.Probes["c10:plan_files"] > 0
 	}})
+}
+
+// c10Integrity: a replica that faithfully holds a damaged database (the SOURCE
+// was damaged; every checksum of the LTX file is right) must not survive a
+// restore with an integrity check: the restore fails and leaves neither the
+// output nor its -wal/-shm/.tmp. Three kinds of damage: a b-tree page filled
+// with garbage (the PRAGMA reports rows other than "ok"), the file header's
+// magic broken, and the schema page mangled (SQLite cannot even run the PRAGMA).
+func (e *Env) c10Integrity(base []byte, seed uint64, out string, clean func()) *Violation {
+	ps := e.Led.PageSize
+	if ps == 0 || len(base) < 2*ps || len(base)%ps != 0 {
+		return nil
+	}
+	r := NewRng(seed)
+	n := len(base) / ps
+	for k := 0; k < 2; k++ {
+		img := append([]byte(nil), base...)
+		kind := []string{"data-page", "header-magic", "schema-page"}[r.Intn(3)]
+		switch kind {
+		case "data-page":
+			pg := 1 + r.Intn(n-1) // not page 1
+			for i := 0; i < ps; i++ {
+				img[pg*ps+i] = byte(0xA5 ^ i)
+			}
+		case "header-magic":
+			copy(img[0:16], []byte("NOT a database!\x00"))
+		default:
+			for i := 100; i < ps && i < 100+400; i++ {
+				img[i] = byte(0x5A ^ i)
+			}
+		}
+		dir := filepath.Join(e.Scratch, "c10-damaged")
+		os.RemoveAll(dir)
+		var buf bytes.Buffer
+		enc, err := ltx.NewEncoder(&buf)
+		if err != nil {
+			return nil
+		}
+		if err := enc.EncodeHeader(ltx.Header{Version: ltx.Version, Flags: ltx.HeaderFlagNoChecksum, PageSize: uint32(ps), Commit: uint32(n),
+			MinTXID: 1, MaxTXID: 1, Timestamp: time.Now().UnixMilli()}); err != nil {
+			return nil
+		}
+		lock := ltx.LockPgno(uint32(ps))
+		bad := false
+		for pg := 1; pg <= n; pg++ {
+			if uint32(pg) == lock {
+				continue
+			}
+			if err := enc.EncodePage(ltx.PageHeader{Pgno: uint32(pg)}, img[(pg-1)*ps:pg*ps]); err != nil {
+				bad = true
+				break
+			}
+		}
+		if bad || enc.Close() != nil {
+			return nil
+		}
+		cl := file.NewReplicaClient(dir)
+		if _, err := cl.WriteLTXFile(context.Background(), litestream.SnapshotLevel, 1, 1, bytes.NewReader(buf.Bytes())); err != nil {
+			return nil
+		}
+		mode := []litestream.IntegrityCheckMode{litestream.IntegrityCheckQuick, litestream.IntegrityCheckFull}[r.Intn(2)]
+		clean()
+		rep := litestream.NewReplicaWithClient(nil, file.NewReplicaClient(dir))
+		opt := litestream.NewRestoreOptions()
+		opt.OutputPath = out
+		opt.IntegrityCheck = mode
+		rerr := rep.Restore(context.Background(), opt)
+		e.Res.Checks++
+		e.Res.Probes["c10:integrity:"+kind]++
+		if rerr == nil {
+			// a garbage data page may be unreferenced (free page): the check can pass legitimately
+			if kind == "data-page" {
+				e.Res.Probes["c10:integrity_passed_unreferenced_page"]++
+				clean()
+				continue
+			}
+			clean()
+			return e.fail("integrity-check-passed-damaged", "restore with integrity check (%v) of a database with damage [%s] reported success", mode, kind)
+		}
+		var left []string
+		for _, s := range []string{"", ".tmp", "-wal", "-shm"} {
+			if fileExists(out + s) {
+				left = append(left, filepath.Base(out+s))
+			}
+		}
+		clean()
+		if len(left) > 0 {
+			v := e.fail("failed-restore-leaves-output", "restore with integrity check (%v) failed on a database with damage [%s] (%v) but left %v behind", mode, kind, rerr, left)
+			v.Facts["damage"] = kind
+			return v
+		}
+		e.Res.Probes["c10:integrity_failures_clean"]++
+	}
+	return nil
 }
